@@ -1,10 +1,11 @@
 \* quick: byte-level and JSON-level mutation cases
 SPECIFICATION Spec
 CONSTANTS
-  Spaces = {"mut", "jmut"}
+  Spaces = {"mut", "jmut", "formats"}
   CondDepth = 0
   ItemDepth = 0
-  MutFields = 24
+  MutFields = 16
   JMutNodes = 24
+  Tags = {0, 1, 2, 3, 4, 17, 33, 40, 64, 72, 128, 224, 255}
 INVARIANTS Emit
 CHECK_DEADLOCK FALSE
